@@ -13,9 +13,9 @@ BOUND = {
     "quick": "sort: all time vectors over 4 instants, sizes 0..6, + sorted/reversed/constant sizes 0..40, random with "
              "duplicates at sizes 8..128; insertObs(obs): all non-decreasing vectors over 4 instants, sizes 0..9, x all 9 "
              "instants before/between/equal/after, + distinct/constant/random-duplicate tracks of sizes 0..70 and 127..129, "
-             "255..257 x all instants; extract: all (a,b), sizes 0..9; extractSpanTime: all vectors over 3 instants, sizes "
+             "255..257 x all instants; extract: all (a,b), sizes 0..9,16,17; extractSpanTime: all vectors over 3 instants, sizes "
              "0..4, x all 49 (lo,hi) incl. reversed/empty, also with a track as span; +: all size pairs 0..6 x 4 feature "
-             "set-ups; > and <: all k in 0..n, sizes 0..9,16,17; %: steps 1..n+1 and all boolean patterns of length 1..3, "
+             "set-ups (same table / none / other names / empty operand with table) and t + t; > and <: all k in 0..n, sizes 0..9,16,17; %: steps 1..n+1 and all boolean patterns of length 1..3, "
              "sizes 0..9,16,17; removeObsList: all 2^n index sets in 3 orders and removeObs(i), sizes 0..9",
     "thorough": "sort: all vectors over 4 instants sizes 0..8 and over n instants sizes 0..6, 3000 random sizes 0..200; "
                 "insertObs(obs): all non-decreasing vectors over 6 instants sizes 0..11 x all 13 instants, distinct / "
